@@ -215,6 +215,12 @@ impl EncodingFile {
         // Validate header
         header.validate()?;
 
+        // The counts and sizes of the header describe data that must follow it:
+        // reject them before they size any allocation
+        if header.data_size() > data.len() {
+            return Err(std::io::Error::from(std::io::ErrorKind::UnexpectedEof).into());
+        }
+
         // Read ESpec table (comes right after header per CASC specification)
         let mut espec_data = vec![0u8; header.espec_block_size as usize];
         cursor.read_exact(&mut espec_data)?;
